@@ -195,8 +195,7 @@ def run(rep: core.Report):
             for c_, trig in ((0, sp.cos), (1, sp.sin)):
                 got = dg.cell("dd_part", adr, c_)
                 want = ddp(adr, c_) + KKf(a, b) * trig(phase)
-                d_ = sp.expand(got - want)
-                if d_ != 0 and sp.simplify(d_) != 0:
+                if not celem.same(got, want):
                     bad_g.append((a, b, c_))
     wr = {tuple(str(x) for x in pat) for pat, _, _ in dg.cells.get("dd_part", [])}
     rep.instance("R08d", DYN, "get_dd_at_g", "dd_part[i,a,j,b] += KK[a][b] (cos, sin)(2 pi G.(r_i - r_j)) for all 9 (a, b); 18 cells written", not bad_g and len(wr) == 18,
